@@ -188,6 +188,18 @@ CLAIMED['C14'] = (
     'crashes the summary)',
     'Lean 4 theorems over row / file / statistics models + replay of every row and exact recomputation of the statistics (differential)')
 
+CLAIMED['C09'] = (
+    'Lean theorems: rounding to the displayed precision stays within half a unit of the last digit for every value; the printed integer and fraction digits denote '
+    'exactly that rounded value with exactly d fraction digits for every magnitude (i.e. also when the figure overflows its column); profile tables have exactly one row '
+    'per simulated year, years ascending, every figure taken at the year\'s stride and never outside the series when it has L*n points; the cash-flow table has '
+    'construction + operating years; max / min aggregates dominate. Tie: for every generated report the live model is snapshotted at the writer (env-guarded hook), the '
+    'text is tokenised independently of the client, and every line whose label is in the specification (119 labels: quantity, aggregate, scale, decimals, unit source; '
+    'five of them computed combinations) and every cell of the production, annual and revenue/cash-flow tables is compared AS A STRING with what the Lean model renders '
+    'from the snapshot (CPython\'s correctly rounded formatting = round-half-even on the exact rational), plus the unit label, row counts and year columns.',
+    'the specification table is hand-written from the meaning of the labels (unspecified labels are listed in the evidence and not decided: g/E formats, segment lines, '
+    'jobs); add-on / S-DAC-GT / SUTRA / HIP-RA-X writers and rich output not covered; values within 1e-12 of a rounding boundary skipped; known finding F25',
+    'Lean 4 theorems over a formatting / table model + exact string differential of every specified report figure against the live model')
+
 CLAIMED['C08'] = (
     'Lean refinement proof over the client state machine (cwd, argv, cache, files; operations request / rewrite / chdir), for every finite history '
     'incl. failing requests and rewrites between calls: the outputs of the (repaired) client equal those of a cache-free, history-free specification '
